@@ -207,11 +207,30 @@ def exactfit_cases(ctx, r, h, n, label):
     return cases
 
 
-def explore(ctx, h, drv, nhist, nops, label, exactfit=0, **kw):
+def page_cases(ctx, r, h, n, label):
+    """node-page histories of C06 (all nodes of a 16-slot page but chosen ones removed, then a refill that reuses what the drain
+    gave back), here judged by the reference map: every record that stayed must still be there, every answer must be right"""
+    from checks import c06
+    cases = []
+    for i in range(n):
+        c, info = c06.gen_page_history(r, h, label, i)
+        if c is None:
+            continue
+        ops = [l for l in c.ops if not l.startswith("image ")]
+        keys = sorted({l.split()[2] for l in ops if l.startswith("put 1 ")})
+        ops = ops[:-1] + ["get 1 %s 0" % k for k in r.sample(keys, min(len(keys), 60))] + ["dump 1"] + ops[-1:]
+        ctx.hist("pages:" + info["shape"])
+        cases.append(make_case(r, 0, ops=ops))
+    return cases
+
+
+def explore(ctx, h, drv, nhist, nops, label, exactfit=0, pages=0, **kw):
     r = C.Rng(ctx.seed, "c01/" + label)
     cases = [make_case(r, nops, **kw) for _ in range(nhist)]
     if exactfit:
         cases += exactfit_cases(ctx, r, h, exactfit, label)
+    if pages:
+        cases += page_cases(ctx, r, h, pages, label)
     for c in cases[:2]:
         ctx.sample(dict(kind="history", first_ops=c.ops[:12], n_ops=len(c.ops)))
     for c in cases:
@@ -246,10 +265,10 @@ def run(ctx):
     h = C.build_harness(impl, *HARNESS[:2], exclude=HARNESS[2])
     drv = C.drv_path() if drv_ok else None
     if ctx.tier == "quick":
-        explore(ctx, h, drv, 60, 300, "q", exactfit=12)
+        explore(ctx, h, drv, 60, 300, "q", exactfit=12, pages=5)
         explore(ctx, h, drv, 4, 3000, "long", big=False)
     else:
-        explore(ctx, h, drv, 600, 400, "t", exactfit=80)
+        explore(ctx, h, drv, 600, 400, "t", exactfit=80, pages=40)
         explore(ctx, h, drv, 20, 10000, "tlong", big=False)
     if (ctx.proof_broken or ctx.corr_broken) and not ctx.violations:
         for i in range(3):
